@@ -61,9 +61,20 @@ Fixpoint model_obs (batch : nat) (s : store) (l : list block) : list obs :=
     end
   end.
 
+(* the property's observables: heights, vote weights, contradiction flag, acceptance (error class). By
+   C02_vote_counting_rule / C02_heights_are_max_quorum the model's values ARE the LIP-0058 counting rules, so a difference
+   here is a violation of the property on this history; the remaining fields are internal bookkeeping. *)
+Definition obs_prop_eqb (a b : obs) : bool :=
+  (o_err a =? o_err b) && Bool.eqb (o_contra a) (o_contra b) &&
+  (if o_err a =? 0 then
+     (let '(x1, x2, x3) := o_heights a in let '(y1, y2, y3) := o_heights b in (x1 =? y1) && (x2 =? y2) && (x3 =? y3)) &&
+     list_eqb info_eqb (o_infos a) (o_infos b)
+   else true).
+
 Definition check_hist (c : hist_case) : N :=
   let '(batch, gh, ini, blocks, initok, observed) := c in
   match init_store batch gh ini with
-  | Error _ => code (negb initok && match observed with [] => true | _ => false end) true
-  | Ok s0 => code (initok && list_eqb obs_eqb (model_obs batch s0 blocks) observed) true
+  | Error _ => let ok := negb initok && match observed with [] => true | _ => false end in code ok ok
+  | Ok s0 => let m := model_obs batch s0 blocks in
+             code (initok && list_eqb obs_eqb m observed) (initok && list_eqb obs_prop_eqb m observed)
   end.
